@@ -121,13 +121,27 @@ Proof.
 Qed.
 
 (** ** rung 1: navigation on a table in the shape of the XPath data model *)
+Definition doc_child_kind (k : nkind) : bool :=
+  match k with KElement | KComment | KPI | KDocumentType => true | _ => false end.
+
 Record SpecShape : Prop := {
   sh_child_kind : forall i c, valid doc i -> In c (child_nodes doc i) ->
                   kind doc c <> KAttribute /\ kind doc c <> KDocument;
   sh_refs : forall i, valid doc i -> kind doc i = KEntityReference -> n_data (getd doc i) = DataStr [];
   sh_attrs : forall i, valid doc i -> kind doc i <> KElement -> attributes doc i = [];
   sh_leaves : forall i, valid doc i -> kind doc i <> KDocument -> kind doc i <> KElement ->
-              kind doc i <> KAttribute -> child_nodes doc i = [] }.
+              kind doc i <> KAttribute -> child_nodes doc i = [];
+  (* round 2: the table is the pre-order walk of the tree of section 5, parent observations are
+     those of the tree, the document node has one element child and otherwise comments,
+     processing instructions and the document type *)
+  sh_order : StronglySorted N.lt (rows_of (all_nodes doc));
+  sh_attr_kind : forall i a, valid doc i -> In a (attributes doc i) -> kind doc a = KAttribute;
+  sh_attr_parent : forall i a, valid doc i -> In a (attributes doc i) -> parent_node doc a = Some i;
+  sh_child_parent : forall i c, valid doc i -> In c (child_nodes doc i) -> parent_node doc c = Some i;
+  sh_child_nav : forall i c, valid doc i -> In c (child_nodes doc i) -> sibling_nav_kind (kind doc c) = true;
+  sh_root_kind : kind doc doc_root = KDocument;
+  sh_doc_children : forall c, In c (child_nodes doc doc_root) -> doc_child_kind (kind doc c) = true;
+  sh_doc_one : exists e, filter (fun c => nkind_eqb (kind doc c) KElement) (child_nodes doc doc_root) = [e] }.
 
 Hypothesis Hshape : SpecShape.
 Let Hwf := inv_wf doc Hinv.
@@ -305,7 +319,7 @@ Qed.
 End Refine.
 
 (** ** a decision procedure for [SpecShape] *)
-Definition row_shape_b (doc : xdoc) (i : node) : bool :=
+Definition row_shape1_b (doc : xdoc) (i : node) : bool :=
   forallb (fun c => negb (nkind_eqb (kind doc c) KAttribute) && negb (nkind_eqb (kind doc c) KDocument))
           (child_nodes doc i)
   && (negb (nkind_eqb (kind doc i) KEntityReference) ||
@@ -314,8 +328,28 @@ Definition row_shape_b (doc : xdoc) (i : node) : bool :=
   && (nkind_eqb (kind doc i) KDocument || nkind_eqb (kind doc i) KElement || nkind_eqb (kind doc i) KAttribute
       || match child_nodes doc i with [] => true | _ => false end).
 
+Definition opt_is (o : option N) (i : N) : bool := match o with Some p => p =? i | None => false end.
+
+Definition row_shape2_b (doc : xdoc) (i : node) : bool :=
+  forallb (fun a => nkind_eqb (kind doc a) KAttribute && opt_is (parent_node doc a) i) (attributes doc i)
+  && forallb (fun c => opt_is (parent_node doc c) i && sibling_nav_kind (kind doc c)) (child_nodes doc i).
+
+Definition row_shape_b (doc : xdoc) (i : node) : bool := row_shape1_b doc i && row_shape2_b doc i.
+
+Fixpoint sorted_b (l : list N) : bool :=
+  match l with
+  | x :: t => match t with y :: _ => (x <? y) && sorted_b t | [] => true end
+  | [] => true
+  end.
+
+Definition global_shape_b (doc : xdoc) : bool :=
+  sorted_b (rows_of (all_nodes doc))
+  && nkind_eqb (kind doc doc_root) KDocument
+  && forallb (fun c => doc_child_kind (kind doc c)) (child_nodes doc doc_root)
+  && match filter (fun c => nkind_eqb (kind doc c) KElement) (child_nodes doc doc_root) with [_] => true | _ => false end.
+
 Definition spec_shape_b (doc : xdoc) : bool :=
-  forallb (row_shape_b doc) (map N.of_nat (seq 0 (length doc))).
+  forallb (row_shape_b doc) (map N.of_nat (seq 0 (length doc))) && global_shape_b doc.
 
 Lemma nkind_eqb_true a b : nkind_eqb a b = true -> a = b.
 Proof. destruct a, b; cbn; intros H; try reflexivity; discriminate. Qed.
@@ -323,31 +357,68 @@ Proof. destruct a, b; cbn; intros H; try reflexivity; discriminate. Qed.
 Lemma nkind_eqb_false a b : nkind_eqb a b = false -> a <> b.
 Proof. intros H E. subst. destruct b; discriminate. Qed.
 
+Lemma sorted_b_sound l : sorted_b l = true -> StronglySorted N.lt l.
+Proof.
+  intros H. apply Sorted_StronglySorted; [intros x y z Hxy Hyz; lia|].
+  induction l as [|x t IH]; [constructor|]. cbn [sorted_b] in H.
+  destruct t as [|y u]; [constructor; constructor|].
+  apply andb_prop in H. destruct H as [H1 H2]. constructor; [apply IH; exact H2|].
+  constructor. apply N.ltb_lt. exact H1.
+Qed.
+
+Lemma opt_is_true o i : opt_is o i = true -> o = Some i.
+Proof. destruct o as [p|]; cbn [opt_is]; intros H; [|discriminate]. apply N.eqb_eq in H. subst. reflexivity. Qed.
+
 Theorem spec_shape_b_sound doc : spec_shape_b doc = true -> SpecShape doc.
 Proof.
-  intros H. unfold spec_shape_b in H. rewrite forallb_forall in H.
-  assert (Hrow : forall i, valid doc i -> row_shape_b doc i = true).
+  intros H0. unfold spec_shape_b in H0. apply andb_prop in H0. destruct H0 as [H Hglob].
+  rewrite forallb_forall in H.
+  assert (Hrow0 : forall i, valid doc i -> row_shape_b doc i = true).
   { intros i Vi. apply H. apply in_map_iff. exists (N.to_nat i). unfold valid in Vi. split; [lia|]. apply in_seq. lia. }
+  assert (Hrow : forall i, valid doc i -> row_shape1_b doc i = true).
+  { intros i Vi. specialize (Hrow0 i Vi). unfold row_shape_b in Hrow0. apply andb_prop in Hrow0. apply Hrow0. }
+  assert (Hrow2 : forall i, valid doc i -> row_shape2_b doc i = true).
+  { intros i Vi. specialize (Hrow0 i Vi). unfold row_shape_b in Hrow0. apply andb_prop in Hrow0. apply Hrow0. }
+  unfold global_shape_b in Hglob.
+  apply andb_prop in Hglob. destruct Hglob as [Hglob Hg4]. apply andb_prop in Hglob. destruct Hglob as [Hglob Hg3].
+  apply andb_prop in Hglob. destruct Hglob as [Hg1 Hg2].
   constructor.
-  - intros i c Vi Hc. specialize (Hrow i Vi). unfold row_shape_b in Hrow.
+  - intros i c Vi Hc. specialize (Hrow i Vi). unfold row_shape1_b in Hrow.
     apply andb_prop in Hrow. destruct Hrow as [Hrow _]. apply andb_prop in Hrow. destruct Hrow as [Hrow _].
     apply andb_prop in Hrow. destruct Hrow as [Hrow _].
     rewrite forallb_forall in Hrow. specialize (Hrow c Hc).
     apply andb_prop in Hrow. destruct Hrow as [H2 H3].
     split; apply nkind_eqb_false; apply negb_true_iff; assumption.
-  - intros i Vi Hk. specialize (Hrow i Vi). unfold row_shape_b in Hrow.
+  - intros i Vi Hk. specialize (Hrow i Vi). unfold row_shape1_b in Hrow.
     apply andb_prop in Hrow. destruct Hrow as [Hrow _]. apply andb_prop in Hrow. destruct Hrow as [Hrow _].
     apply andb_prop in Hrow. destruct Hrow as [_ Hrow].
     rewrite Hk in Hrow. cbn [nkind_eqb negb orb] in Hrow.
     destruct (n_data (getd doc i)) as [| |[|? ?]]; try discriminate. reflexivity.
-  - intros i Vi Hk. specialize (Hrow i Vi). unfold row_shape_b in Hrow.
+  - intros i Vi Hk. specialize (Hrow i Vi). unfold row_shape1_b in Hrow.
     apply andb_prop in Hrow. destruct Hrow as [Hrow _]. apply andb_prop in Hrow. destruct Hrow as [_ Hrow].
     destruct (nkind_eqb (kind doc i) KElement) eqn:E; [apply nkind_eqb_true in E; contradiction|].
     cbn [orb] in Hrow. destruct (attributes doc i); [reflexivity|discriminate].
-  - intros i Vi H1 H2 H3. specialize (Hrow i Vi). unfold row_shape_b in Hrow.
+  - intros i Vi H1 H2 H3. specialize (Hrow i Vi). unfold row_shape1_b in Hrow.
     apply andb_prop in Hrow. destruct Hrow as [_ Hrow].
     destruct (nkind_eqb (kind doc i) KDocument) eqn:E1; [apply nkind_eqb_true in E1; contradiction|].
     destruct (nkind_eqb (kind doc i) KElement) eqn:E2; [apply nkind_eqb_true in E2; contradiction|].
     destruct (nkind_eqb (kind doc i) KAttribute) eqn:E3; [apply nkind_eqb_true in E3; contradiction|].
     cbn [orb] in Hrow. destruct (child_nodes doc i); [reflexivity|discriminate].
+  - apply sorted_b_sound. exact Hg1.
+  - intros i a Vi Ha. specialize (Hrow2 i Vi). unfold row_shape2_b in Hrow2.
+    apply andb_prop in Hrow2. destruct Hrow2 as [Hr _]. rewrite forallb_forall in Hr.
+    specialize (Hr a Ha). apply andb_prop in Hr. apply nkind_eqb_true. apply Hr.
+  - intros i a Vi Ha. specialize (Hrow2 i Vi). unfold row_shape2_b in Hrow2.
+    apply andb_prop in Hrow2. destruct Hrow2 as [Hr _]. rewrite forallb_forall in Hr.
+    specialize (Hr a Ha). apply andb_prop in Hr. apply opt_is_true. apply Hr.
+  - intros i c Vi Hc. specialize (Hrow2 i Vi). unfold row_shape2_b in Hrow2.
+    apply andb_prop in Hrow2. destruct Hrow2 as [_ Hr]. rewrite forallb_forall in Hr.
+    specialize (Hr c Hc). apply andb_prop in Hr. apply opt_is_true. apply Hr.
+  - intros i c Vi Hc. specialize (Hrow2 i Vi). unfold row_shape2_b in Hrow2.
+    apply andb_prop in Hrow2. destruct Hrow2 as [_ Hr]. rewrite forallb_forall in Hr.
+    specialize (Hr c Hc). apply andb_prop in Hr. apply Hr.
+  - apply nkind_eqb_true. exact Hg2.
+  - intros c Hc. rewrite forallb_forall in Hg3. apply Hg3. exact Hc.
+  - destruct (filter (fun c => nkind_eqb (kind doc c) KElement) (child_nodes doc doc_root)) as [|e [|? ?]]; try discriminate.
+    exists e. reflexivity.
 Qed.
